@@ -98,6 +98,8 @@ var expectedRefactorAlarms = map[string]string{
 	// a switch replaced by a lookup in a map of pointers to the destination lists: the list classes are told apart by the guards of their appends
 	// (the array of errors of U03-5 is read from its initialiser since the fifth round)
 	"U07-5": "identifier space looked up in a map",
+	// a mock rebuilt from closures over the constructor's locals into a struct with methods (counter, expectation list and testing.TB become fields)
+	"W10-3": "NewPublishMock as a struct with methods",
 	// a known function changes its signature (parameters bundled in a new struct)
 	"U07-4": "cleanSequence takes a struct",
 }
